@@ -33,13 +33,17 @@ def _attrs_stored(F, fn, on):
     """Attribute names stored (assignment / setattr) on the object selected
     by `on(target atom)` -> {attr: value atoms}."""
     out = {}
-    for t, v, n in F.stores(fn):
-        for a in t:
-            if a.startswith(('via:', 'const:', 'key:', 'alloc:')):
-                continue
-            m = re.match(r'^(.*)\.([A-Za-z_][A-Za-z_0-9]*)(\[.*\])?$', a)
-            if m and on(m.group(1)):
-                out.setdefault(m.group(2), set()).update(v)
+    for g, b in F.frames(fn, 1):
+        if g.cls is not fn.cls:
+            continue
+        for t, v, n in F.stores(g, b):
+            for a in t:
+                if a.startswith(('via:', 'const:', 'key:', 'alloc:')):
+                    continue
+                m = re.match(r'^(.*)\.([A-Za-z_][A-Za-z_0-9]*)(\[.*\])?$',
+                             a)
+                if m and on(m.group(1)):
+                    out.setdefault(m.group(2), set()).update(v)
     return out
 
 
@@ -57,15 +61,15 @@ def _keys_read(F, fn, under):
     """Constant keys k read as X[k] where X's access paths satisfy
     under(atoms of X)."""
     out = set()
-    for g in F.reach(fn, 1):
+    for g, b in F.frames(fn, 1):
         if g.module is not fn.module:
             continue
         for n in ast.walk(g.node):
             if isinstance(n, ast.Subscript) and isinstance(n.ctx, ast.Load):
-                ks = F.flow.const_keys(n.slice, g)
+                ks = F.flow.const_keys(n.slice, g, b)
                 if ks is None:
                     continue
-                if under(F.atoms(n.value, g)):
+                if under(F.atoms(n.value, g, b)):
                     out |= {k for k in ks if isinstance(k, (str, int))}
     return out
 
@@ -90,7 +94,9 @@ def env_fields(ctx):
     saved = fl.subrecord(top, 'data')
     Q.require(saved is not None, 'Environment.save: data record not found')
     saved.pop('*', None)
-    restored = _attrs_stored(F, load, lambda base: '__new__(' in base)
+    restored = {k: v for k, v in _attrs_stored(
+        F, load, lambda base: '__new__(' in base).items()
+        if not k.startswith('_')}
     keys_of = {}
     for attr, v in restored.items():
         keys_of[attr] = set(re.findall(
@@ -189,17 +195,21 @@ def upgrade_chain(ctx):
     ci = repo.cls(ENV + 'Environment')
     cur = const_eval(repo, ci.module, ci.attrs['version'])
     ks = []
-    for st in walk_no_nested(load.node):
-        if isinstance(st, ast.If) and isinstance(st.test, ast.Compare) and \
-                len(st.test.ops) == 1 and isinstance(
+    for g, b in F.frames(load, 1):
+        for st in walk_no_nested(g.node):
+            if isinstance(st, ast.If) and isinstance(
+                    st.test, ast.Compare) and len(
+                        st.test.ops) == 1 and isinstance(
                     st.test.ops[0], ast.Lt) and has(
-                        F.atoms(st.test.left, load), "['version']"):
-            k = const_eval(repo, ci.module, st.test.comparators[0])
-            if isinstance(k, int):
-                ks.append((k, st))
+                        F.atoms(st.test.left, g, b), "['version']"):
+                k = const_eval(repo, g.module, st.test.comparators[0])
+                if isinstance(k, int):
+                    ks.append((k, st, g, b))
     Q.require(len(ks) >= 10, 'upgrade steps not found')
+    Q.require(len({g.fq for _, _, g, _ in ks}) == 1,
+              'upgrade steps spread over several functions')
     ks.sort(key=lambda x: x[1].lineno)
-    vals = [k for k, _ in ks]
+    vals = [k for k, _, _, _ in ks]
     ctx.ob(R, 'increasing', vals == sorted(vals), load.node,
            'upgrade steps are not applied in increasing order: {}'.format(
                vals))
@@ -209,12 +219,12 @@ def upgrade_chain(ctx):
            'last upgrade step is {} but Environment.version is {}'.format(
                vals[-1], cur))
     stored = set()
-    for k, st in ks:
+    for k, st, g, b in ks:
         for n in ast.walk(st):
             if isinstance(n, ast.Subscript) and isinstance(
-                    n.ctx, ast.Store) and has(F.atoms(n.value, load),
+                    n.ctx, ast.Store) and has(F.atoms(n.value, g, b),
                                               "['data']"):
-                kk = F.flow.const_keys(n.slice, load)
+                kk = F.flow.const_keys(n.slice, g, b)
                 stored |= set(kk or ['*loop*'])
     for key in ('extra_args', 'library_mode', 'mopack', 'compdb', 'toolchain',
                 'host_platform', 'target_platform', 'bfgdir',
@@ -604,7 +614,9 @@ def nullable_roundtrip(ctx):
     top = _dumped_record(F, save)
     saved = fl.subrecord(top, 'data') if top else None
     Q.require(saved is not None, 'Environment.save: data record not found')
-    restored = _attrs_stored(F, load, lambda base: '__new__(' in base)
+    restored = {k: v for k, v in _attrs_stored(
+        F, load, lambda base: '__new__(' in base).items()
+        if not k.startswith('_')}
     TOTAL = ('str(', 'repr(', 'int(', 'bool(', 'list(')
     for k in sorted(saved):
         if k not in nullable:
@@ -727,7 +739,7 @@ def load_only(ctx):
     ctx.ob(R, 'regenerate|configure_build(env)', ok, f.node,
            'the build is not configured from the saved environment')
     allat = set()
-    for e in F.effects(f, lambda e: True, depth=0):
+    for e in F.effects(f, lambda e: e.fn.module is f.module, depth=1):
         allat |= e.all_args() | e.heads() | e.control() | e.recv()
     ctx.ob(R, 'regenerate|backend-from-saved-env',
            has(allat, 'Environment', 'load()', 'backend'), f.node,
